@@ -18,7 +18,7 @@ func (x *counters) Add(addr oid.Address, size uint64) {
 	x.mu.Lock()
 	defer x.mu.Unlock()
 
-	x.size += size
+	x.size += size - x.objMap[addr]
 	x.objMap[addr] = size
 }
 
